@@ -69,7 +69,7 @@ func (net *Net) redeliver(p *Packet, to int) {
 		net.Deliveries[to] = append(net.Deliveries[to], Delivery{Event: len(net.Events), Pkt: p})
 		net.Logf("gossip #%d (%s from %d h=%d r=%d %s) to %d", p.ID, p.Kind, p.From, p.H, p.R, p.Block, to)
 	}
-	net.protect(n, "gossip "+p.Kind, func() { n.CS.VerifHandleMsg(msg, peerOf(p.From)) })
+	net.protect(n, "gossip "+p.Kind, func() { n.CS.VerifHandleMsg(msg, net.peerFor(p)) })
 	n.CS.VerifDrainStats()
 	net.settle(n)
 }
@@ -261,17 +261,23 @@ func (w *world) equivocateAtCommitWaiters(h int64) {
 // RunTermination plays one C03 case.
 func RunTermination(t *rapid.T, test string) {
 	s := genSetup(t)
-	net, err := New(Config{Keys: s.keys, Powers: s.powers, Correct: s.correct, SkipTimeoutCommit: rapid.Bool().Draw(t, "skipTimeoutCommit")})
+	net, err := New(Config{Keys: s.keys, Powers: s.powers, Correct: s.correct, SkipTimeoutCommit: rapid.Bool().Draw(t, "skipTimeoutCommit"),
+		FilePV: rapid.IntRange(0, 3).Draw(t, "fileSigner") == 0})
 	if err != nil {
 		t.Fatalf("VERIF-INFRA: sim.New: %v", err)
 	}
 	defer net.Close()
+	if net.Cfg.FilePV {
+		lib.Class(test, "signer:file-based")
+	}
 	shadow, err := NewShadow(net.GenDoc)
 	if err != nil {
 		t.Fatalf("VERIF-INFRA: shadow: %v", err)
 	}
 	defer shadow.Close()
 	w := &world{victim: -1, decider: -1, opt: Options{Test: test, Prop: "C03"}, t: t, s: s, net: net, blocks: map[int64][]blockInfo{}}
+	net.PeerMode = rapid.SampledFrom([]string{"", "", "single", "two"}).Draw(t, "peerMode")
+	lib.Class(test, "neighbours:"+map[string]string{"": "one-per-signer", "single": "one", "two": "two"}[net.PeerMode])
 
 	// ---------------- adversarial prefix
 	prefix := rapid.SampledFrom([]string{"structured", "structured", "free", "both", "calm-then-structured", "gadget-locks", "gadget-locks", "gadget-commit-noblock", "gadget-commit-noblock", "gadget-laggard"}).Draw(t, "prefix")
@@ -536,28 +542,42 @@ func RunTermination(t *rapid.T, test string) {
 				continue
 			}
 		}
-		// timeouts: messages have all been delivered, so now timers may expire
+		// timeouts: messages have all been delivered, so now timers may expire - those of the nodes that are furthest
+		// behind, all of them at once or one of them. A node that is ahead never has its timer fired while another
+		// node's EARLIER timer is still pending: timers run for their durations, and the ones that started earlier
+		// (within one message delay of each other) expire first. (Firing "everybody's current timer" let a node that
+		// was one step ahead time out on a proposal whose proposer had not even entered the round: a schedule no
+		// synchronous network produces, and a false alarm on the unchanged tree once in ~16000 cases.)
 		fired := false
-		if rapid.Bool().Draw(t, "fireAllAtOnce") {
-			for _, k := range net.Order {
-				if net.Nodes[k].RS().Height <= target && net.Fire(k) {
-					fired = true
-				}
+		best := -1
+		for _, k := range net.Order {
+			n := net.Nodes[k]
+			if n.Crashed != "" || !n.Ticker.Armed || n.RS().Height > target {
+				continue
 			}
-		} else {
-			// the node that is furthest behind first
-			best := -1
+			if best < 0 || lessHRS(n, net.Nodes[best]) {
+				best = k
+			}
+		}
+		if best >= 0 {
+			all := rapid.Bool().Draw(t, "fireAllAtOnce")
+			var same []int
 			for _, k := range net.Order {
 				n := net.Nodes[k]
 				if n.Crashed != "" || !n.Ticker.Armed || n.RS().Height > target {
 					continue
 				}
-				if best < 0 || lessHRS(n, net.Nodes[best]) {
-					best = k
+				if !lessHRS(net.Nodes[best], n) { // as far behind as the furthest
+					same = append(same, k)
 				}
 			}
-			if best >= 0 {
-				fired = net.Fire(best)
+			if !all {
+				same = same[:1]
+			}
+			for _, k := range same {
+				if net.Fire(k) {
+					fired = true
+				}
 			}
 		}
 		w.check(shadow, "suffix fire")
